@@ -30,6 +30,7 @@ type SolverStats struct {
 	Time                         time.Duration
 	MaxQuery                     time.Duration
 	Restarts                     int
+	Fallbacks                    int
 }
 
 type Solver struct {
@@ -47,6 +48,15 @@ type Solver struct {
 	// activated side constraints per level
 	sideAt []map[int32]bool
 	dead   bool
+	// assertion stack (for one-shot fallback queries)
+	stack      [][]*Term
+	fallback   string // solver kind used when the primary answers unknown
+	fallbackMs int
+	fbVals     map[int32]uint64 // model of the last fallback Sat answer
+	fbActive   bool
+	scoped     bool      // declarations are popped with their level (cvc5)
+	declAt     [][]int32 // ids declared at each level (scoped solvers)
+	ufAt       [][]string
 }
 
 func solverArgs(kind string, timeoutMs int) (string, []string) {
@@ -56,7 +66,7 @@ func solverArgs(kind string, timeoutMs int) (string, []string) {
 	case "z3-new":
 		return "z3-new", []string{"-in", "-smt2", fmt.Sprintf("-t:%d", timeoutMs)}
 	case "cvc5":
-		return "cvc5", []string{"--incremental", "--lang=smt2", "--produce-models", "--global-declarations", fmt.Sprintf("--tlimit-per=%d", timeoutMs)}
+		return "cvc5", []string{"--incremental", "--lang=smt2", "--produce-models", fmt.Sprintf("--tlimit-per=%d", timeoutMs)}
 	}
 	panic("unknown solver " + kind)
 }
@@ -96,8 +106,12 @@ func (s *Solver) start() error {
 	s.emitOrder = nil
 	s.ufDecl = map[string]bool{}
 	s.level = 0
+	s.stack = [][]*Term{nil}
 	s.sideAt = []map[int32]bool{{}}
 	s.dead = false
+	s.scoped = s.kind == "cvc5"
+	s.declAt = [][]int32{nil}
+	s.ufAt = [][]string{nil}
 	if s.kind != "cvc5" {
 		s.send("(set-option :global-declarations true)")
 		s.send("(set-option :produce-models true)")
@@ -168,12 +182,18 @@ func (s *Solver) define(t *Term) {
 			continue
 		}
 		s.emitted[x.id] = true
+		if s.scoped {
+			s.declAt[s.level] = append(s.declAt[s.level], x.id)
+		}
 		switch x.op {
 		case OpVar:
 			s.send(fmt.Sprintf("(declare-const |%s| %s)", x.name, sortString(x.W)))
 		case OpUF:
 			if !s.ufDecl[x.name] {
 				s.ufDecl[x.name] = true
+				if s.scoped {
+					s.ufAt[s.level] = append(s.ufAt[s.level], x.name)
+				}
 				var sb strings.Builder
 				fmt.Fprintf(&sb, "(declare-fun |%s| (", x.name)
 				for i, a := range x.args {
@@ -223,12 +243,26 @@ func (s *Solver) collectSide(t *Term, seen map[int32]bool, out *[]*Term) {
 func (s *Solver) Push() {
 	s.send("(push 1)")
 	s.level++
+	s.declAt = append(s.declAt, nil)
+	s.ufAt = append(s.ufAt, nil)
+	s.stack = append(s.stack, nil)
 	s.sideAt = append(s.sideAt, map[int32]bool{})
 }
 
 func (s *Solver) Pop() {
 	s.send("(pop 1)")
+	if s.scoped {
+		for _, id := range s.declAt[s.level] {
+			delete(s.emitted, id)
+		}
+		for _, n := range s.ufAt[s.level] {
+			delete(s.ufDecl, n)
+		}
+	}
+	s.declAt = s.declAt[:s.level]
+	s.ufAt = s.ufAt[:s.level]
 	s.level--
+	s.stack = s.stack[:len(s.stack)-1]
 	s.sideAt = s.sideAt[:len(s.sideAt)-1]
 }
 
@@ -241,9 +275,11 @@ func (s *Solver) Assert(t *Term) {
 	for _, c := range side {
 		s.define(c)
 		s.send("(assert " + c.ref() + ")")
+		s.stack[s.level] = append(s.stack[s.level], c)
 	}
 	s.define(t)
 	s.send("(assert " + t.ref() + ")")
+	s.stack[s.level] = append(s.stack[s.level], t)
 }
 
 func (s *Solver) Check() Result {
@@ -284,6 +320,14 @@ func (s *Solver) Check() Result {
 			break
 		}
 	}
+	s.fbActive = false
+	if res == Unknown && s.fallback != "" {
+		if s.dead {
+			s.restartAndReplay()
+		}
+		res = s.oneShot()
+		s.stats.Fallbacks++
+	}
 	d := time.Since(t0)
 	s.stats.Queries++
 	s.stats.Time += d
@@ -304,6 +348,12 @@ func (s *Solver) Check() Result {
 // GetValues fetches model values for the atoms; must follow a Sat answer.
 func (s *Solver) GetValues(atoms []*Term, m *Model) bool {
 	if len(atoms) == 0 {
+		return true
+	}
+	if s.fbActive {
+		for _, a := range atoms {
+			m.vals[a.id] = s.fbVals[a.id]
+		}
 		return true
 	}
 	const chunk = 200
@@ -445,4 +495,123 @@ func parseLit(tok string) uint64 {
 		return v
 	}
 	return 0
+}
+
+// restartAndReplay restarts a dead primary solver and re-asserts the stack.
+func (s *Solver) restartAndReplay() {
+	saved := s.stack
+	s.Close()
+	s.stats.Restarts++
+	if err := s.start(); err != nil {
+		return
+	}
+	for lvl, as := range saved {
+		if lvl > 0 {
+			s.Push()
+		}
+		for _, a := range as {
+			s.define(a)
+			s.send("(assert " + a.ref() + ")")
+			s.stack[s.level] = append(s.stack[s.level], a)
+		}
+	}
+}
+
+// oneShot decides the current assertion stack with a fresh process of the
+// fallback solver (non-incremental, full preprocessing).
+func (s *Solver) oneShot() Result {
+	var sb strings.Builder
+	seen := map[int32]bool{}
+	ufs := map[string]bool{}
+	var atoms []*Term
+	hasUF := false
+	var emit func(t *Term)
+	emit = func(t *Term) {
+		if t.op == OpConst || seen[t.id] {
+			return
+		}
+		seen[t.id] = true
+		for _, a := range t.args {
+			emit(a)
+		}
+		switch t.op {
+		case OpVar:
+			fmt.Fprintf(&sb, "(declare-const |%s| %s)\n", t.name, sortString(t.W))
+			atoms = append(atoms, t)
+		case OpUF:
+			hasUF = true
+			if !ufs[t.name] {
+				ufs[t.name] = true
+				fmt.Fprintf(&sb, "(declare-fun |%s| (", t.name)
+				for i, a := range t.args {
+					if i > 0 {
+						sb.WriteByte(' ')
+					}
+					sb.WriteString(sortString(a.W))
+				}
+				fmt.Fprintf(&sb, ") %s)\n", sortString(t.W))
+			}
+			fmt.Fprintf(&sb, "(define-fun n%d () %s %s)\n", t.id, sortString(t.W), t.body())
+			atoms = append(atoms, t)
+		default:
+			fmt.Fprintf(&sb, "(define-fun n%d () %s %s)\n", t.id, sortString(t.W), t.body())
+		}
+	}
+	var asserts []string
+	for _, lvl := range s.stack {
+		for _, a := range lvl {
+			emit(a)
+			asserts = append(asserts, "(assert "+a.ref()+")")
+		}
+	}
+	logic := "QF_BV"
+	if hasUF {
+		logic = "QF_UFBV"
+	}
+	script := "(set-option :produce-models true)\n(set-logic " + logic + ")\n" + sb.String() + strings.Join(asserts, "\n") + "\n(check-sat)\n"
+	if len(atoms) > 0 {
+		var gv strings.Builder
+		gv.WriteString("(get-value (")
+		for _, a := range atoms {
+			gv.WriteByte(' ')
+			gv.WriteString(a.ref())
+		}
+		gv.WriteString("))\n")
+		script += gv.String()
+	}
+	var cmd *exec.Cmd
+	switch s.fallback {
+	case "cvc5":
+		cmd = exec.Command("cvc5", "--lang=smt2", fmt.Sprintf("--tlimit=%d", s.fallbackMs))
+	case "z3-new":
+		cmd = exec.Command("z3-new", "-in", "-smt2", fmt.Sprintf("-T:%d", max(1, s.fallbackMs/1000)))
+	default:
+		cmd = exec.Command("/usr/bin/z3", "-in", "-smt2", fmt.Sprintf("-T:%d", max(1, s.fallbackMs/1000)))
+	}
+	cmd.Stdin = strings.NewReader(script)
+	out, _ := cmd.Output()
+	txt := string(out)
+	first, rest, _ := strings.Cut(strings.TrimSpace(txt), "\n")
+	switch strings.TrimSpace(first) {
+	case "unsat":
+		if strings.Contains(txt, "(error") && !strings.Contains(rest, "model is not available") && !strings.Contains(rest, "cannot get value") && !strings.Contains(rest, "Cannot get") {
+			return Unknown
+		}
+		return Unsat
+	case "sat":
+		if strings.Contains(rest, "(error") {
+			return Unknown
+		}
+		vals := parseValues(rest)
+		if len(vals) != len(atoms) {
+			return Unknown
+		}
+		s.fbVals = map[int32]uint64{}
+		for i, a := range atoms {
+			s.fbVals[a.id] = vals[i]
+		}
+		s.fbActive = true
+		return Sat
+	}
+	return Unknown
 }
